@@ -69,3 +69,8 @@ impl<B: Bitmap + Clone> VolatileSlice<B> {
         self.bitmap.mark_dirty(0, 1);
     }
 }
+
+// R18.3: division by the size of a generic element type without a zero-size guard
+pub fn elements_in<T: Copy>(bytes: usize) -> usize {
+    bytes / std::mem::size_of::<T>()
+}
